@@ -20,6 +20,7 @@ def check(run):
     GR.cuboid(run, funcs, 'C06')
     GR.right_loc(run, funcs, 'C06')
     GR.build_loop(run, funcs, 'C06')
+    GR.build_loop_multi(run, funcs, 'C06')
     run.assume('f64 read as exact reals; whole-pipeline consequences (replicated tessellation, no wall faces on periodic axes) outside')
     return run.finish(LEVEL, EXPLANATION, trusted=['rustc -Zunpretty=mir', 'z3 5.1.0 / 4.8.12, cvc5 1.0.3', 'glam / std models of mirsym'])
 
